@@ -71,6 +71,11 @@ CHECKS = {
         "text": "Theorems: size bound, lookups return the most recently stored value or a miss and never another key's value, evicted entry has the strictly oldest last use, counters exact, clear empties every cache. Tied to the code by comparing the observable state after every step of exhaustive and random operation sequences.",
         "design_ref": "DESIGN.md section 8 / C16",
     },
+    "C18": {
+        "technique": "Lean 4 proof (dispatch lemma for the method-table model; mutual structural induction for tree equality) + differential on all bundled rule names / random names in random case and on random tree pairs with single-field mutants",
+        "text": "Theorems: the handler invoked is the one keyed by the normalised name iff present, else None; keys are case-insensitive; `==` is true iff the trees are structurally equal. Tied to the real NodeVisitor / Node / LiteralNode by differential runs.",
+        "design_ref": "DESIGN.md section 8 / C18",
+    },
 }
 
 NOT_YET = "check not built yet in this round (work in progress; see DESIGN.md section 8 for the plan)"
